@@ -71,8 +71,12 @@ pub fn minecraft_hash(server_id: &str, shared_secret: &[u8], encoded_public: &[u
     // create a new hasher instance
     let mut hasher = Sha1::new();
 
-    // server id
-    hasher.update(server_id);
+    // server id (the game hashes it as ISO-8859-1, one byte per character and `?` beyond U+00FF)
+    let server_id: Vec<u8> = server_id
+        .chars()
+        .map(|c| u8::try_from(u32::from(c)).unwrap_or(b'?'))
+        .collect();
+    hasher.update(&server_id);
     // shared secret
     hasher.update(shared_secret);
     // encoded public key
